@@ -649,27 +649,28 @@ func main() {
 		if r.DistinctCount() < 12 {
 			r.HarnessError("vacuous: only %d distinct outcomes", r.DistinctCount())
 		}
-		// the generated functions do what their letter says (else the oracle is about nothing)
+		// the generated functions do what their letter says (else the oracle is about nothing):
+		// per behaviour, at least one single-function package shows the behaviour's own message
+		sigs := map[string]string{
+			"unexpected-panic":             "panic: boom",
+			"unexpected-trap":              "integer divide by zero",
+			"output-mismatch":              `got = "12\n3"`,
+			"expected-panic-wrong-message": "panic: y",
+			"expected-panic-absent":        "expect panic",
+		}
+		shown := map[string]bool{}
 		for _, o := range outs {
 			if len(o.Spec.Fns) != 1 || o.Spec.Pat != patNone {
 				continue
 			}
-			l := o.Spec.Fns[0]
-			var sig string
-			switch l.Name {
-			case "unexpected-panic":
-				sig = "panic: boom"
-			case "unexpected-trap":
-				sig = "integer divide by zero"
-			case "output-mismatch":
-				sig = `got = "12\n3"`
-			case "expected-panic-wrong-message":
-				sig = "panic: y"
-			case "expected-panic-absent":
-				sig = "expect panic"
+			name := o.Spec.Fns[0].Name
+			if sig, ok := sigs[name]; ok && strings.Contains(o.Res.Stdout+o.Res.Stderr, sig) {
+				shown[name] = true
 			}
-			if sig != "" && !strings.Contains(o.Res.Stdout+o.Res.Stderr, sig) {
-				r.HarnessError("vacuous: %s did not show %q (stdout %q)", o.Spec, sig, o.Res.Stdout)
+		}
+		for name, sig := range sigs {
+			if !shown[name] {
+				r.HarnessError("vacuous: no single-function package of behaviour %s showed %q", name, sig)
 			}
 		}
 	}
